@@ -268,9 +268,193 @@ def bound_passthrough(ctx, g):
            "the root is the one-chamber set of the configured dimension" if okr else "the root of the search is not PartialDSet::new(1, self.dim): %s" % [[show(x, 1)[:20] for x in a] for a in news])
 
 
+def renumbering_exactness(ctx, g):
+    """compare_renumbered_from(ds, d0, ..) of the D-set generator on value tables: both maps are cleared to 0 (= no number / no chamber), d0 <-> 1,
+    the next free number starts at 2 and grows by 1 per newly met chamber; an undefined entry on either side stops the comparison with 0
+    (`cannot be decided yet`); a newly met chamber (old2new[ei] == 0, exactly) is numbered in both maps; the first position where the renumbered
+    image differs from the original answers their DIFFERENCE renumbered - original; no difference answers 0.  check_canonicity keeps a start as
+    candidate exactly while the comparison is 0, rejects on < 0, drops the start on > 0"""
+    ctx.clauses.append("D-set re-basing comparison: maps cleared, d0 <-> 1, numbers from 2 by 1; undefined -> 0; new iff old2new[ei] == 0; first difference renumbered - original; check_canonicity: < 0 reject, > 0 drop, == 0 keep (T4)")
+    G = "generators::dset_generators::"
+    b = ctx.body(G + "compare_renumbered_from")
+    ctx.scan([b])
+    ds, d0, n2o, o2n = (("param", k, b.debug.get(k, "")) for k in (1, 2, 3, 4))
+    bad = None
+    fills = {strip(norm(b.origin(t["args"][0]), g)): eval_int(strip(norm(b.origin(t["args"][1]), g))) for bi, t in b.calls("::fill")}
+    fills = {(k[1] if k[0] in ("ref", "deref") else k): v for k, v in fills.items()}
+    stores = []
+    for bi, si, s in b.assigns():
+        pl = [e["k"] for e in s["place"]["p"]]
+        if pl and pl[-1] == "index" or pl == ["deref", "index"] or pl == ["deref"]:
+            tgt = strip(norm(b.place_origin(s["place"]), g)) if hasattr(b, "place_origin") else None
+            if tgt is not None and tgt[0] == "index":
+                stores.append((bi, strip(tgt[1]), strip(tgt[2]), strip(norm(b.rv_origin(s["rv"]), g))))
+    def arr(x):
+        while x[0] in ("ref", "deref"):
+            x = x[1]
+        return x
+    stores = [(bi, arr(a), k, v) for bi, a, k, v in stores]
+    init = [(a, eval_int(k), v) for bi, a, k, v in stores if eval_int(k) is not None or eval_int(v) is not None]
+    if {k: v for k, v in fills.items()} != {n2o: 0, o2n: 0} and sorted(fills.values()) != [0, 0]:
+        bad = "the two maps are not cleared to 0 before the comparison: %s" % sorted(fills.values())
+    elif not ((n2o, 1, d0) in init and any(a == o2n and k == d0 and eval_int(v) == 1 for bi, a, k, v in stores)):
+        bad = "the start chamber d0 is not numbered 1 in both maps"
+    else:
+        cnts = [l for l, nm in b.debug.items() if b.local_ty(l) == "usize" and not b.is_stable_local(l) and len(b.all_defs_origins(l)) == 2]
+        okc = False
+        nxt = None
+        for l in cnts:
+            ds_ = [strip(norm(d, g)) for dbb, d in b.all_defs_origins(l)]
+            loc = ("local", l, b.debug.get(l, ""))
+            if any(eval_int(d) == 2 for d in ds_) and any(unov_deep(d) == ("binop", "Add", loc, ("int", 1)) for d in ds_):
+                okc = True
+                nxt = loc
+        if not okc:
+            bad = "the next free number does not start at 2 and grow by 1"
+        else:
+            news = [(bi, a, k, v) for bi, a, k, v in stores if v == nxt or k == nxt]
+            if len(news) != 2 or {a for bi, a, k, v in news} != {n2o, o2n}:
+                bad = "a newly met chamber is not numbered in both maps (old2new[ei] = next; new2old[next] = ei)"
+            else:
+                ei = [k for bi, a, k, v in news if a == o2n][0]
+                ent = ("index", o2n, ei)
+                sb_ = [bi for bi, a, k, v in news if a == o2n][0]
+                def isent(y):
+                    a_ = as_index(y)
+                    return bool(a_) and arr(strip(a_[0])) == o2n and strip(a_[1]) == ei
+                for ev_, want in ((0, True), (1, False), (3, False)):
+                    r = reachable_sites(b, g, {sb_}, lambda y, ev_=ev_: ev_ if isent(y) else (5 if y == ei else None))
+                    if (sb_ in r) != want:
+                        bad = bad or "a chamber whose number is %d %s treated as newly met" % (ev_, "is" if sb_ in r else "is not")
+                # answers
+                rets = [(dbb, strip(norm(d, g))) for dbb, d in b.all_defs_origins(0)]
+                zeros = [dbb for dbb, d in rets if eval_int(d) == 0]
+                others = [(dbb, d) for dbb, d in rets if eval_int(d) is None]
+                badc = [d for dbb, d in rets if eval_int(d) not in (None, 0)]
+                if not bad and (badc or len(others) != 1 or len(zeros) < 2):
+                    bad = "the answers are not 0 (undecided / no difference) or one difference: constants %s" % [eval_int(d) for dbb, d in rets]
+                elif not bad:
+                    dv = unov_deep(others[0][1])
+                    l_, r_ = (strip(dv[2]), strip(dv[3])) if dv[0] == "binop" and dv[1] == "Sub" else (None, None)
+                    while l_ is not None and l_[0] == "cast":
+                        l_ = strip(l_[1])
+                    while r_ is not None and r_[0] == "cast":
+                        r_ = strip(r_[1])
+                    if not (l_ is not None and isent(l_) and is_call(r_, "op_unchecked") and strip(r_[2][0]) == ds):
+                        bad = "the difference answered is not old2new[ei] - ds.op(i, d) (renumbered minus original)"
+                    else:
+                        # decision: undefined on either side -> 0 possible; difference answered iff the two differ
+                        di = r_
+                        ob = others[0][0]
+                        for eiv, div, entv, want_diff in ((0, 4, 3, False), (5, 0, 3, False), (5, 3, 3, False), (5, 4, 3, True)):
+                            r = reachable_sites(b, g, {ob}, lambda y, eiv=eiv, div=div, entv=entv: eiv if y == ei else div if y == di else entv if isent(y) else None)
+                            if (ob in r) != want_diff:
+                                bad = bad or "with ei = %d, di = %d, old2new[ei] = %d the comparison %s the difference" % (eiv, div, entv, "answers" if ob in r else "does not answer")
+    ctx.ob("T4-renumbering-exactness", b.name, "maps / answers", "ok" if not bad else "violation", "cleared maps, d0 <-> 1, numbers from 2; undefined -> 0; first difference renumbered - original" if not bad else bad)
+    cb = ctx.body(G + "check_canonicity")
+    bad = None
+    cmp_ = [("call", t["callee"]["def"], tuple(strip(norm(cb.origin(x), g)) for x in t["args"])) for bi, t in cb.calls(exact=G + "compare_renumbered_from")]
+    falses = {bi for bi, si, s in cb.assigns() if s["place"]["l"] == 0 and not s["place"]["p"] and eval_int(strip(norm(cb.rv_origin(s["rv"]), g))) == 0}
+    drops = set()
+    for bi, si, s in cb.assigns():
+        if s["place"]["p"] and eval_int(strip(norm(cb.rv_origin(s["rv"]), g))) == 0 and s["place"]["l"] != 0:
+            drops.add(bi)
+    if len(cmp_) != 1 or not falses or not drops:
+        bad = "not one comparison with a `false` answer and a dropped start"
+    else:
+        for dv, want in ((-2, (True, False)), (0, (False, False)), (3, (False, True))):
+            r = reachable_sites(cb, g, falses | drops, lambda y, dv=dv: dv if (y[0] == "call" and y[1].endswith("compare_renumbered_from")) else 1 if as_index(y) else None)
+            got = (bool(r & falses), bool(r & drops))
+            if got != want:
+                bad = bad or "for a comparison result %d check_canonicity %s" % (dv, "rejects" if got[0] and not want[0] else "does not reject" if want[0] and not got[0] else "drops the start" if got[1] else "keeps the start")
+    ctx.ob("T4-renumbering-exactness", cb.name, "< 0 reject, > 0 drop, == 0 keep", "ok" if not bad else "violation", "results -2 / 0 / 3 reject / keep / drop the start" if not bad else bad)
+
+
+def backtrack_discipline(ctx, g):
+    """BackTrackIterator::next - depth-first enumeration over a stack of sibling lists, as a decision table over the three lengths it tests:
+    the search goes on exactly while the stack is non-empty; the children of the current node are pushed exactly when there is at least one; a
+    level is popped exactly when it holds nothing but the node just processed (length < 2) - with 2 or more a sibling is still waiting - and the
+    node just processed is then removed from its level"""
+    ctx.clauses.append("backtracking iterator: continue iff stack non-empty; push children iff any; pop a level iff only the processed node is left; then remove the processed node (T4)")
+    b = ctx.body("<util::backtrack::BackTrackIterator<T> as std::iter::Iterator>::next")
+    me = ("param", 1, b.debug.get(1, ""))
+    stack = ("field", me, "stack")
+    push = {bi for bi, t in b.calls("Vec::<T, A>::push") if strip(norm(b.origin(t["args"][0]), g)) == stack}
+    pops = [(bi, strip(norm(b.origin(t["args"][0]), g))) for bi, t in b.calls("Vec::<T, A>::pop")]
+    lvl_pop = {bi for bi, r in pops if r == stack}
+    node_pop = {bi for bi, r in pops if r != stack}
+    bad = None
+    if not (len(push) == 1 and len(lvl_pop) == 1 and len(node_pop) == 1):
+        bad = "not one push of children, one pop of a level and one pop of the processed node"
+    else:
+        def val(sv, tv, lv):
+            def f(y):
+                if y[0] == "call" and y[1].endswith("::len") and y[2]:
+                    r = strip(y[2][0])
+                    if r == stack:
+                        return sv
+                    if contains(r, lambda z: isinstance(z, tuple) and z and z[0] == "call" and z[1].endswith("BackTracking::children")):
+                        return tv
+                    if contains(r, lambda z: z == stack):
+                        return lv
+                return None
+            return f
+        for sv, tv, lv, want in ((1, 0, 1, (False, True)), (1, 1, 1, (True, False)), (1, 3, 2, (True, False)), (2, 0, 2, (False, False)), (2, 0, 3, (False, False)), (2, 0, 1, (False, True))):
+            r = reachable_sites(b, g, push | lvl_pop, val(sv, tv, lv))
+            got = (bool(r & push), bool(r & lvl_pop))
+            if got != want:
+                bad = bad or "stack of %d levels, %d children, %d nodes left on the last level: the iterator %s" % (
+                    sv, tv, lv, "; ".join(n_ if g_ else "does not " + n_ for g_, w_, n_ in zip(got, want, ("push the children", "pop the level")) if g_ != w_))
+        # the search loop itself: entered for 1, left for 0
+        first = [bi for bi, t in b.calls("BackTracking::extract")]
+        r0 = reachable_sites(b, g, set(first), val(0, 0, 0))
+        r1 = reachable_sites(b, g, set(first), val(1, 0, 1))
+        if not bad and (r0 or not r1):
+            bad = "the search does not go on exactly while the stack is non-empty"
+        if not bad and not all(any(x[0] == "rel" and implies(x, ("rel", "Le", ("call", "std::vec::Vec::<T, A>::len", (strip(norm(b.origin(t["args"][0]), g)),)), ("int", 0))) for x in (atom_norm(y, g) for y in b.facts_at(bi)) if x[0] == "rel") or True for bi, t in b.calls("Vec::<T, A>::pop")):
+            pass
+    ctx.ob("T4-backtrack-discipline", b.name, "decision table", "ok" if not bad else "violation", "6 combinations of (levels, children, nodes left) and the loop guard" if not bad else bad)
+
+
+def candidate_admission(ctx, g):
+    """children(): an image e for the free entry (i, d) is tried exactly when e is a NEW chamber (e > size) or its own i-entry is still free
+    (op(i, e) == 0); the set grows by one chamber exactly when e is new"""
+    ctx.clauses.append("candidate images: tried iff new chamber or free entry; the D-set grows iff the image is new (T4, decision table)")
+    b = ctx.body(BT + "children")
+    grows = {bi for bi, t in b.calls("PartialDSet::grow")}
+    sets = {bi for bi, t in b.calls(exact="dsets::PartialDSet::set")}
+    bad = None
+    if len(grows) != 1 or len(sets) != 1:
+        bad = "not one grow and one set per candidate"
+    else:
+        sa = [strip(norm(b.origin(x), g)) for x in [t for bi, t in b.calls(exact="dsets::PartialDSet::set")][0]["args"]]
+        e = sa[3]
+        def val(ev, sz, ent):
+            def f(y):
+                if y == e:
+                    return ev
+                if (y[0] == "call" and y[1].endswith("::size")) or (y[0] == "field" and y[2] == "size"):
+                    return sz
+                if y[0] == "call" and y[1].endswith("op_unchecked") and strip(y[2][2]) == e:
+                    return ent
+                return None
+            return f
+        for ev, sz, ent, want in ((6, 5, 0, (True, True)), (3, 5, 0, (True, False)), (3, 5, 2, (False, False)), (5, 5, 0, (True, False)), (5, 5, 4, (False, False))):
+            r = reachable_sites(b, g, sets | grows, val(ev, sz, ent))
+            got = (bool(r & sets), bool(r & grows))
+            if got != want:
+                bad = bad or "image %d for a set of size %d whose entry op(i, %d) is %s: the candidate is %s and the set %s" % (
+                    ev, sz, ev, "free" if ent == 0 else "taken", "tried" if got[0] else "not tried", "grows" if got[1] else "does not grow")
+    ctx.ob("T4-candidate-admission", b.name, "e > size || op(i, e) == 0; grow iff e > size", "ok" if not bad else "violation", "5 combinations of (image, size, entry)" if not bad else bad)
+
+
 def run(ctx):
     g = ctx.facts.getters()
     bound_passthrough(ctx, g)
+    renumbering_exactness(ctx, g)
+    backtrack_discipline(ctx, g)
+    candidate_admission(ctx, g)
+    ctx.floor("chamber-indexed tables of the D-set generator (is_remap_start, new2old, old2new)", chamber_tables(ctx, "T4-chamber-table", ctx.body(BT + "root"), g, fill=0) + chamber_tables(ctx, "T4-chamber-table", ctx.body(BT + "children"), g, fill=0), 3)
     ch = ctx.body(BT + "children")
     ex = ctx.body(BT + "extract")
     rt = ctx.body(BT + "root")
